@@ -26,6 +26,17 @@ fn resize_target(a: u32, len: usize, cap: usize) -> usize {
     }
 }
 
+trait RevFreeSum {
+    fn rev_free_sum(self) -> u64;
+}
+impl<I: Iterator<Item = u8>> RevFreeSum for I {
+    fn rev_free_sum(self) -> u64 {
+        let mut t = 0u64;
+        self.for_each(|x| t += x as u64);
+        t
+    }
+}
+
 impl<'a> Interp<'a> {
     fn skip(&mut self, kk: u8) {
         self.st.op_skip[kk as usize] += 1;
@@ -496,9 +507,27 @@ impl<'a> Interp<'a> {
                                     bad
                                 }
                             }
+                            3 => {
+                                // the consuming Iterator methods std implements on top of next() (an override would go its own way)
+                                let ok = match n % 5 {
+                                    0 => it.last() == exp.last().copied(),
+                                    1 => it.count() == exp.len(),
+                                    2 => it.fold(Vec::new(), |mut a, x| { a.push(x); a })[..] == exp[..],
+                                    3 => {
+                                        let st = (n % 7).max(1);
+                                        it.step_by(st).collect::<Vec<u8>>() == exp.iter().copied().step_by(st).collect::<Vec<u8>>()
+                                    }
+                                    _ => it.rev_free_sum() == exp.iter().map(|&x| x as u64).sum::<u64>(),
+                                };
+                                if ok {
+                                    exp.to_vec()
+                                } else {
+                                    vec![0xEE, 0x49, 0x54, 0x45, 0x52, (n % 5) as u8]
+                                }
+                            }
                             _ => it.collect::<Vec<u8>>(),
                         };
-                        assert!(mode == 1 || mode == 2 || by_ref == v, "harness-visible: (&Bytes).into_iter() and Bytes::into_iter() disagree");
+                        assert!(mode != 0 || by_ref == v, "harness-visible: (&Bytes).into_iter() and Bytes::into_iter() disagree");
                         v
                     })
                 };
@@ -709,9 +738,27 @@ impl<'a> Interp<'a> {
                                     bad
                                 }
                             }
+                            3 => {
+                                // the consuming Iterator methods std implements on top of next() (an override would go its own way)
+                                let ok = match n % 5 {
+                                    0 => it.last() == exp.last().copied(),
+                                    1 => it.count() == exp.len(),
+                                    2 => it.fold(Vec::new(), |mut a, x| { a.push(x); a })[..] == exp[..],
+                                    3 => {
+                                        let st = (n % 7).max(1);
+                                        it.step_by(st).collect::<Vec<u8>>() == exp.iter().copied().step_by(st).collect::<Vec<u8>>()
+                                    }
+                                    _ => it.rev_free_sum() == exp.iter().map(|&x| x as u64).sum::<u64>(),
+                                };
+                                if ok {
+                                    exp.to_vec()
+                                } else {
+                                    vec![0xEE, 0x49, 0x54, 0x45, 0x52, (n % 5) as u8]
+                                }
+                            }
                             _ => it.collect::<Vec<u8>>(),
                         };
-                        assert!(mode == 1 || mode == 2 || by_ref == v, "harness-visible: (&BytesMut).into_iter() and BytesMut::into_iter() disagree");
+                        assert!(mode != 0 || by_ref == v, "harness-visible: (&BytesMut).into_iter() and BytesMut::into_iter() disagree");
                         v
                     })
                 };
